@@ -13,6 +13,23 @@ CLAIMED = {
          'Excel-side spec. XMATCH binary-search modes not modelled. Known findings: xmatch_reverse_position, '
          'vlookup_text_case_sensitive, match_int_float_gate.',
     technique='Coq proof (list induction) over hand-written model + vm_compute correspondence (cases.v)', ref='6/C14'),
+ 'C10': dict(
+    text='Unbounded Coq theorems over a Gallina model of _compare/_by_operator/EmptyCell (Python rich-comparison dispatch included): '
+         'numbers (int/float of any size) are compared by the exact three-way comparison for all six operators; the comparison laws '
+         '(trichotomy, <> = not =, <=/>= negations, a<b iff b>a); dates/date-times incl. date = its midnight; blank = 0/FALSE/"" , '
+         'blank < positive ints, dates and non-numeric texts. Refutation theorems (kernel-computed witnesses) for the listed findings. '
+         'Correspondence: all pairs of a value pool x 6 operators via direct calls, cells, overrides and literals.',
+    note='repr(float) is an oracle used only by the str() fallback. Spec silent on cross-kind pairs the statement does not name. '
+         'Known findings: blank_ne_emptytext, blank_vs_fraction, blank_vs_numeric_text, text_case_sensitive, numeric_text_as_number.',
+    technique='Coq proof (case analysis on the model) + vm_compute correspondence', ref='6/C10'),
+ 'C11': dict(
+    text='Unbounded Coq theorems over a Gallina model of the aggregate helpers and of how the eight translators call them: the folded '
+         'list equals the numeric cells of the arguments (once per mention, any area shapes/nesting/content), is independent of the split '
+         'into areas, SUM(X,Y)=SUM(X)+SUM(Y) and AVERAGE=SUM/COUNT exactly on integer data, MIN/MAX are the least/greatest element, '
+         'COUNT/COUNTBLANK/AND/OR characterised. Correspondence through real formulas over generated two-sheet workbooks.',
+    note='Float sums are modelled as the correctly rounded exact sum; generators keep float data dyadic so every partial sum is exact. '
+         'Dates only for COUNT. Known findings: count_several_areas, fold_over_no_numeric_cell_raises, count_ignores_expression_args.',
+    technique='Coq proof (list induction) + vm_compute correspondence', ref='6/C11'),
 }
 
 ids = [json.loads(l)['id'] for l in open('/verif/properties.jsonl')]
